@@ -26,7 +26,7 @@ Inductive hop :=
 | HPrepare                           (* prepare_insertion_ctx: required.extend(unassigned.keys()) *)
 | HRemoveJob (route : nat) (j : Z)   (* try_remove_job: tour.remove(job) succeeded => required.push(job); otherwise nothing *)
 | HRemoveRoute (route : nat)         (* remove_whole_route: required.extend(tour.jobs()); the route is dropped *)
-| HDropEmpty                         (* remove_empty_routes (called by InsertionContext::restore only) *)
+| HDropEmpty                         (* remove_empty_routes (InsertionContext::restore; finalize_insertion_ctx since 03c7b61) *)
 | HPushEmpty.                        (* tour_limits.rs TravelLimitState::notify_failure: registry.get_route(actor) with an
                                         advanced departure is pushed to `routes` WITHOUT any job *)
 
